@@ -6,7 +6,6 @@ import (
 	"fmt"
 	"os"
 	"strings"
-	"sync"
 	"time"
 
 	openfgav1 "github.com/openfga/api/proto/openfga/v1"
